@@ -12,6 +12,7 @@ REPO = os.environ.get("TEVEC_REPO") or (_sib if ROOT != "/verif" and os.path.isd
 
 sys.path.insert(0, os.path.join(ROOT, "tools"))
 import props as PROPS   # per-property configuration
+import anchors as ANCHORS  # source fingerprints of the anchored Rust files
 
 ALLOWED_AXIOMS = {
     # Coq standard-library axioms behind Reals (DESIGN.md section 6); nothing else is accepted
@@ -353,6 +354,15 @@ def check(prop, tier, seed, only=None, only_bin=None):
                                                   any(a not in ALLOWED_AXIOMS for a in assum.get(t, []))],
                             audit=bad, log=out[-6000:]))
         violations.append((path, "no-failing-input-found"))
+
+    # ---- 1b. has the anchored Rust text moved since the model was written?  then compare as deeply as we can
+    drifted = ANCHORS.drift(prop, REPO)
+    requested_tier = tier
+    if drifted and tier == "quick" and only is None and os.environ.get("VERIF_NO_ESCALATE") != "1":
+        tier = "thorough"
+        log("[%s] anchored source differs from the baseline in %d place(s) (%s%s): escalating the correspondence run to "
+            "the thorough generators" % (prop, len(drifted), ", ".join(drifted[:4]), " ..." if len(drifted) > 4 else ""))
+    cov.update(source_drift=drifted, correspondence_tier=tier)
 
     # ---- 2. harness from the current /repo tree ------------------------------------
     all_cases, all_aborts, build_fail = [], [], None
